@@ -12,6 +12,7 @@ The rewrite (complete list -- nothing else is changed or dropped):
       a bare ``x: T`` is dropped);
   R2  ``a is b`` / ``a is not b``  ->  ``__vc_is__(a, b)`` / ``not __vc_is__(a, b)``  (identity of
       proxies against None/True/False/enum members; plain identity otherwise);
+  R7  ``'<literal>'.join(xs)``  ->  ``__vc_join__('<literal>', xs)`` (concatenation of symbolic strings)
   R3  f-strings  ->  ``__vc_fstr__(...)`` (concatenation when parts are symbolic strings, an
       opaque fresh string for other symbolic parts, ordinary formatting otherwise);
   R4  the builtins ``len isinstance max min int float str bool abs sum any all sorted list tuple``
@@ -169,6 +170,16 @@ class _Rewriter(ast.NodeTransformer):
             ast.Call(func=ast.Name('__vc_fstr__', ast.Load()), args=[ast.List(elts=parts, ctx=ast.Load())], keywords=[]),
             node)
 
+    # R7: '<literal>'.join(xs)  ->  __vc_join__('<literal>', xs)   (concatenation when items are symbolic strings)
+    def visit_Call(self, node):
+        self.generic_visit(node)
+        f = node.func
+        if (isinstance(f, ast.Attribute) and f.attr == 'join' and isinstance(f.value, ast.Constant)
+                and isinstance(f.value.value, str) and len(node.args) == 1 and not node.keywords):
+            return ast.copy_location(ast.Call(func=ast.Name('__vc_join__', ast.Load()), args=[f.value, node.args[0]],
+                                              keywords=[]), node)
+        return node
+
     # R5
     def _loop(self, node):
         self.loop_no += 1
@@ -315,6 +326,7 @@ def load(modname: str, qualname: str, *, stubs: dict[str, Any] | None = None,
     ns['__vc_is__'] = vc_is
     ns['__vc_in__'] = vc_in
     ns['__vc_fstr__'] = vc_fstr
+    ns['__vc_join__'] = vc_join
     ns['__vc_STOP__'] = _STOP
     ns['__vc_sync__'] = _sync
     lp = _LoopRuntime(loops or {})
@@ -449,6 +461,18 @@ def vc_fstr(parts):
                     val = ascii(val)
                 piece = format(val, spec if isinstance(spec, str) else '') if spec else format(val, '')
         out = out + piece
+    return out
+
+
+def vc_join(sep, items):
+    items = list(items)
+    if not any(isinstance(x, V.SV) for x in items):
+        return sep.join(items)
+    out: Any = ''
+    for i, x in enumerate(items):
+        if not isinstance(x, (str, V.SStr)):
+            raise TypeError(f'sequence item {i}: expected str instance, {type(x).__name__} found')
+        out = (out + sep + x) if i else x
     return out
 
 
